@@ -6,6 +6,7 @@ import (
 	"encoding/hex"
 	"encoding/json"
 	"fmt"
+	"os"
 	"sort"
 	"strings"
 	"sync"
@@ -899,6 +900,20 @@ func enrich(rt *rapid.T, p *idl.Program) {
 	}
 }
 
+// options that change names or accessors but must not change how a call is carried
+var presentation = []string{"naming_style=golint", "naming_style=apache", "ignore_initialisms", "compatible_names", "nil_safe", "gen_setter", "keep_unknown_fields", "reorder_fields"}
+
+func genSpec(rt *rapid.T) string {
+	if rapid.IntRange(0, 2).Draw(rt, "plain") > 0 {
+		return "go"
+	}
+	opts := []string{rapid.SampledFrom(presentation).Draw(rt, "opt")}
+	if o := rapid.SampledFrom(presentation).Draw(rt, "opt2"); o != opts[0] && !(strings.HasPrefix(o, "naming_style") && strings.HasPrefix(opts[0], "naming_style")) {
+		opts = append(opts, o)
+	}
+	return "go:" + strings.Join(opts, ",")
+}
+
 type svcModel struct {
 	def *idl.Def
 	j   svcJ
@@ -1081,16 +1096,16 @@ func TestCalls(t *testing.T) {
 		sch := ref.Build(p)
 		completeSchema(sch)
 		excs := exceptions(sch, reachable(p))
-		base := callCase{Main: p.Files[0].Path, Files: p.Texts(nil), Gen: "go", Schema: sch.Export()}
+		base := callCase{Main: p.Files[0].Path, Files: p.Texts(nil), Gen: genSpec(rt), Schema: sch.Export()}
 		// services with a base service are the rarer and more interesting ones
 		var pick []*svcModel
 		for _, s := range svcs {
 			pick = append(pick, s)
 			if len(s.j.Methods) > 0 {
-				pick = append(pick, s, s) // a service without functions only answers "unknown method"
-			}
-			if s.def.Extends != nil {
-				pick = append(pick, s, s, s)
+				pick = append(pick, s, s, s) // a service without functions only answers "unknown method"
+				if s.def.Extends != nil {
+					pick = append(pick, s, s, s, s)
+				}
 			}
 		}
 		nseq := rapid.IntRange(20, 50).Draw(rt, "nsequences")
@@ -1120,7 +1135,11 @@ func TestCalls(t *testing.T) {
 					vt.Class("session:" + o.status)
 					vt.ClassIf(stressed, "session:"+o.status+"_with_stress_names")
 					vt.Class("session_detail:" + vt.Truncate(o.detail, 160))
-					vt.Sample(map[string]interface{}{"program": p.Describe(), "status": o.status, "detail": vt.Truncate(o.detail, 300)})
+					if d := os.Getenv("VERIF_C08_DUMP"); d != "" { // development aid: keep the program for a look
+						b, _ := json.MarshalIndent(c, "", " ")
+						os.WriteFile(fmt.Sprintf("%s/%s-%d.json", d, o.status, len(b)), b, 0o644)
+					}
+					vt.Sample(map[string]interface{}{"program": p.Describe(), "gen": c.Gen, "status": o.status, "detail": vt.Truncate(o.detail, 300)})
 					return
 				}
 				continue
@@ -1159,6 +1178,7 @@ func TestCalls(t *testing.T) {
 			vt.ClassIf(sm.def.Extends != nil, "service_with_base")
 			vt.ClassIf(sm.def.Extends != nil && sm.def.Extends.File != sm.def.File, "base_service_across_files")
 			vt.ClassIf(stressed, "program_with_stress_names")
+			vt.ClassIf(c.Gen != "go", "with_options")
 			vt.Class(fmt.Sprintf("seqlen:%d", len(c.Calls)))
 			for _, m := range sm.j.Methods {
 				if m.Throws != nil {
